@@ -12,9 +12,11 @@
 //   dimensions/size/num_channels and equal pixels; and the value-semantics clauses of the statement:
 //   copy / assignment / == of any_image are deep, of any_image_view shallow (observed by poking one pixel).
 // The contents of a state are a function of (held, shape, how it was produced), so the reachable state space is
-// finite; the search runs depth-first to closure from one root per alternative (bound `depth` caps it, 0 = none).
+// finite; the search runs breadth-first to closure from one root per alternative (bound `depth` caps it, 0 = none),
+// so every state is reached by a shortest path and failure ids carry the complete path.
 #include "c14_common.hpp"
 #include <tuple>
+#include <deque>
 
 using namespace c14;
 
@@ -35,16 +37,15 @@ struct Search
     std::string root;
     std::vector<std::string> path;
     std::unordered_map<uint64_t, int> seen;
+    struct Item { Pair p; std::vector<std::string> path; };
+    std::deque<Item> queue;               // breadth-first frontier (states are deep copies)
     int S = 3, maxdepth = 0;
     long unit_fails = 0;
     explicit Search(vh::Ctx& c) : ctx(c) {}
     std::string id() const
     {
-        // ids name the last two transitions and the state they started from (paths to closure can be long)
         std::string s = root;
-        size_t from = path.size() > 3 ? path.size() - 3 : 0;
-        if (from) s += "/...";
-        for (size_t i = from; i < path.size(); ++i) { s += (i == from && !from ? "/" : ">"); s += path[i]; }
+        for (size_t i = 0; i < path.size(); ++i) { s += (i ? ">" : "/"); s += path[i]; }
         return s;
     }
     void fail(const char* sig, std::string const& detail)
@@ -128,6 +129,15 @@ uint64_t check(Search& s, Pair& p)
             if (int(as.index()) != i) s.fail("image-assign-wrong-alternative", vh::S() << as.index());
             else if (held_vs_concrete(gil::const_view(as), gil::const_view(cas), df) != 0) s.fail("image-assign-differs-from-concrete-assign", df.str());
             if ((as == a) != (cas == ci)) s.fail("image-assign-equality-differs", vh::S() << "as == a gives " << (as == a));
+            // assignment from an any_image over a different (sub-)list of image types
+            {
+                gil::any_image<image_t> single{image_t(ci)};
+                AnyImage ax;
+                ax = single;
+                if (int(ax.index()) != i) s.fail("image-assign-from-other-list-wrong-alternative", vh::S() << ax.index());
+                else if (held_vs_concrete(gil::const_view(ax), gil::const_view(ccp), df) != 0) s.fail("image-assign-from-other-list-differs", df.str());
+                ++ctx.witness["assign_from_other_type_list"];
+            }
             if (bv::visit(PokeAny(), as))
             {
                 if (as == a) s.fail("image-equality-not-deep", "assigned image modified in one pixel still compares equal");
@@ -142,6 +152,11 @@ uint64_t check(Search& s, Pair& p)
             AnyCView c2(acv);
             if (!(v2 == av) || !(v3 == av) || (v2 != av) || !(c2 == acv)) s.fail("view-copy-not-equal", "copied any_image_view != original");
             if (v2.index() != av.index() || v3.index() != av.index()) s.fail("view-copy-changed-alternative", "");
+            // construction / assignment from the concrete view of the held image: same alternative, same pixels (shallow)
+            AnyView v4(gil::view(bv::get<i>(a)));
+            AnyView v5;
+            v5 = gil::view(bv::get<i>(a));
+            if (int(v4.index()) != i || int(v5.index()) != i || !(v4 == av) || !(v5 == av)) s.fail("view-from-concrete-view-differs", vh::S() << v4.index() << "," << v5.index());
             if (bv::visit(PokeAnyView(), v2))
             {
                 ++ctx.witness["shallow_view_poked"];
@@ -152,15 +167,15 @@ uint64_t check(Search& s, Pair& p)
             }
         }
         std::ptrdiff_t rs_a = bv::get<i>(a)._view.pixels().row_size(), rs_c = ci._view.pixels().row_size();
+        // key: held alternative, both row sizes, both alignments (they steer later recreate calls), contents, dimensions
         key = vh::mix(vh::mix(uint64_t(i) * 977 + uint64_t(rs_a) * 31 + uint64_t(rs_c), obs_hash(gil::const_view(ci))), uint64_t(ci.width()) * 16 + uint64_t(ci.height()));
+        key = vh::mix(key, uint64_t(bv::get<i>(a)._align_in_bytes) * 64 + uint64_t(ci._align_in_bytes));
     });
     ctx.san_take_lazy([&] { return s.id(); });
     return key;
 }
 
 struct PaintAny { int seed; template <class Im> void operator()(Im& im) const { paint(gil::view(im), int(sizeof(typename gil::channel_type<Im>::type)) * 8, seed); } };
-
-void explore(Search& s, Pair p, int depth);
 
 void arrive(Search& s, Pair& q, int depth)
 {
@@ -170,11 +185,12 @@ void arrive(Search& s, Pair& q, int depth)
     auto it = s.seen.find(key);
     bool fresh = it == s.seen.end();
     if (fresh) { ++ctx.states; s.seen[key] = depth; if (depth > ctx.counters["max_depth"]) ctx.counters["max_depth"] = depth; }
-    if (fresh && (s.maxdepth == 0 || depth < s.maxdepth) && s.unit_fails <= 64) explore(s, q, depth);   // pass by value: a deep copy
+    else ++ctx.counters["revisits"];
+    if (fresh && (s.maxdepth == 0 || depth < s.maxdepth) && s.unit_fails <= 64) s.queue.push_back(Search::Item{q, s.path});   // a deep copy
     else { ++ctx.traces; if (s.path.size() >= 2) ctx.sample(vh::S() << s.id() << " -> " << INFO[q.held].name << " " << q.a.width() << "x" << q.a.height()); }
 }
 
-void explore(Search& s, Pair p, int depth)
+void explore(Search& s, Pair const& p, int depth)
 {
     vh::Ctx& ctx = s.ctx;
     // --- recreate, 4 call forms x every shape
@@ -283,7 +299,15 @@ struct RootLoop
         uint64_t key = check(s, p);
         ++ctx.states; s.seen[key] = 0;
         ++ctx.witness[std::string("root_") + INFO[i].name];
-        explore(s, p, 0);
+        s.queue.push_back(Search::Item{p, {}});
+        while (!s.queue.empty() && !ctx.timed_out())
+        {
+            Search::Item it = std::move(s.queue.front());
+            s.queue.pop_front();
+            s.path = it.path;
+            explore(s, it.p, int(it.path.size()));
+        }
+        s.path.clear();
         ctx.san_take(s.root + "/<unattributed>");
     }
 };
